@@ -454,8 +454,8 @@ Qed.
 Lemma end_comment_range_good v id s : Inv s -> good Inv (end_comment_range v id s).
 Proof.
   intro H. unfold end_comment_range.
-  apply good_bind with (Q := any); [nce_tac|]. intros n _.
-  apply good_bind with (Q := any); [nce_tac|]. intros [b c] _. exact H.
+  destruct (dict_get id (c_ranges s)) as [[b c]|]; [|exact H].
+  apply good_bind with (Q := any); [nce_tac|]. intros n _. exact H.
 Qed.
 
 (* the same facts in "Inv s -> f s = Ok s' -> Inv s'" form *)
@@ -680,9 +680,10 @@ Proof.
     destruct rows as [|r0 [|p rest]]; try (simpl; discriminate).
     destruct p as [prev|p]; [|simpl; discriminate]. cbn [as_list bind].
     apply good_bind with (Q := any); [nce_tac|]. intros cells _.
-    match goal with |- good Inv (bind (of_opt _ ?o) _) => destruct o as [src|] eqn:Esrc end;
-      [|simpl; discriminate].
-    cbn [of_opt bind].
+    cbv zeta. destruct cells as [|c0 cr].
+    { exact Ia. }
+    match goal with |- context [py_nth ?a ?b] => destruct (py_nth a b) as [src|] eqn:Esrc end;
+      [|exact Ia].
     apply good_bind with (Q := fun root' => Inv (set_tree root' sa)).
     2:{ intros root' Hr. exact Hr. }
     apply upd_row_good; [exact Ia|exact Da| |].
@@ -821,7 +822,7 @@ Qed.
 (* the two local loops of [walk], named *)
 Section Loops.
   Variables (v : env) (path : list nat).
-  Fixpoint below_loop (l : list anode) (i : nat) : res (list (list tok)) :=
+  Fixpoint below_loop (l : list anode) (i : nat) : res (list tok) :=
     match l with
     | [] => Ok []
     | k :: r =>
@@ -829,7 +830,7 @@ Section Loops.
         sk' <- finish v sk ;;
         ps <- tree_par_toks (c_tree sk') ;;
         rest <- below_loop r (S i) ;;
-        Ok (ps ++ rest)
+        Ok (join_toks par_sep ps ++ rest)
     end.
   Fixpoint kids_loop (l : list anode) (i : nat) (s : cst) : res cst :=
     match l with
@@ -843,7 +844,7 @@ Lemma walk_AE v path e ks s :
   (let d := elem_depth (AE e ks) in
    s1 <- set_caret d (Some (e_local e)) s ;;
    body <- (if str_eqb (e_ptag e) tag_HYPERLINK then below_loop v path ks O else Ok []) ;;
-   '(s2, recurse) <- open_tag v path (AE e ks) e ks (join_toks par_sep body) s1 ;;
+   '(s2, recurse) <- open_tag v path (AE e ks) e ks body s1 ;;
    s3 <- (if recurse : bool then kids_loop v path ks O s2 else Ok s2) ;;
    s4 <- close_tag v e ks s3 ;;
    set_caret d None s4).
